@@ -36,7 +36,7 @@ fn registry() -> Vec<CheckDef> {
         id: "C08",
         level: "exploration",
         workers: 16,
-        rule: "exhaustive enumeration of all sequences of <=7 identity-tagged entries over 4 ranks x 2 flags x capacities 0..=8, plus proptest-generated inputs up to 5000 entries (full-width, 3-value, sorted, reverse-sorted, near-u64::MAX ranks; capacities 0,1,n-1,n,n+1,usize::MAX,n/2,random); a case is non-trivial when n > capacity (the planner must evict); enumerated cases are distinct by construction, random ones are counted by hash of (input, capacity)",
+        rule: "exhaustive enumeration of all sequences of <=7 (thorough: <=8, capacities 0..=9) identity-tagged entries over 4 ranks x 2 flags x capacities 0..=8, plus proptest-generated inputs up to 5000 entries (full-width, 3-value, sorted, reverse-sorted, near-u64::MAX ranks; capacities 0,1,n-1,n,n+1,usize::MAX,n/2,random); a case is non-trivial when n > capacity (the planner must evict); enumerated cases are distinct by construction, random ones are counted by hash of (input, capacity)",
         run: kvlib::c08::run,
         replay: kvlib::c08::replay,
         assumptions: &["the closed-form acceptance predicate is the oracle; it is cross-checked in both directions against brute-force enumeration of all tie orders of the textbook queue on every input of length <=4 (quick) / <=5 (thorough) over 3 ranks before any plan is judged"],
